@@ -84,6 +84,7 @@ type Sched struct {
 	MaxPoints  int
 	Failure    string // harness-level failure (replay divergence...)
 	mainDone   bool
+	OnRead     func(thread, where string, n int) // n bytes of terminal input consumed by a thread
 	OnDecision func() // called at every scheduling point, all threads parked or done
 	OnIdle     func() // called when main is parked in a terminal read and nothing else is enabled (a "wait")
 	nThreads   int    // enabled threads at the decision being taken
@@ -645,13 +646,17 @@ func (*stdinT) Read(p []byte) (int, error) {
 	if s == nil {
 		return os.Stdin.Read(p)
 	}
-	t := s.park(&op{kind: "read", where: where()})
+	w := where()
+	t := s.park(&op{kind: "read", where: w})
 	t.op = nil
 	if len(s.Stdin) == 0 {
 		return 0, fmt.Errorf("EOF")
 	}
 	n := copy(p, s.Stdin)
 	s.Stdin = s.Stdin[n:]
+	if s.OnRead != nil {
+		s.OnRead(t.Name, w, n)
+	}
 	return n, nil
 }
 
